@@ -151,6 +151,15 @@ def hostile_pdus(rnd, ver):
 def streams(rnd, tier):
     """list of (description, events)"""
     out = []
+    # bulk answers first (never cut by the time budget): more records of each kind in one response than the client's
+    # temporary PDU stores hold after one, two and four growth steps (steps of 100)
+    for nk in ((450,) if tier == "quick" else (130, 250, 450, 900)):
+        items = [R.key_pdu(1, (64000 + i, 1000 + i), 1) for i in range(nk)]
+        items += [R.prefix_pdu(1, ("4", format(0x0a000000 + i * 256, "032b"), 24, 24, 65000 + i % 7), 1) for i in range(nk)]
+        items += [R.prefix_pdu(1, ("6", format((0x20010db8 << 96) + (i << 64), "0128b"), 64, 64, 65000 + i % 7), 1) for i in range(nk)]
+        rnd.shuffle(items)
+        out.append(("bulk %d records of each kind in one response" % nk,
+                    [("data", R.cache_response(1, SESS) + b"".join(items) + R.eod(1, SESS, SERIAL))]))
     k = used = 0
     for ver in (1, 0):
         for desc, p in hostile_pdus(rnd, ver):
@@ -347,7 +356,7 @@ def run(chk):
         if time.time() - t0 > budget:
             chk.notes.append("time budget reached after %d of %d streams" % (i, len(sts)))
             break
-        fnd, lines, impl = examine_stream(evs, rnd, modes)
+        fnd, lines, impl = examine_stream(evs, rnd, modes if not desc.startswith("bulk") else ["whole", "rand"])
         nstream += 1
         nrun += len(modes)
         kinds[desc.split()[1] if desc.startswith("v") else desc.split()[0]] += 1
